@@ -293,17 +293,17 @@ func (te *tableEngine) playersAutoIn() {
 	te.rg.OnCompleted(func(rg *syncsaga.ReadyGroup) {
 		isInCount := 0
 		alivePlayers := 0
-		for playerIdx, player := range te.table.State.PlayerStates {
+		for _, player := range te.table.State.PlayerStates {
 			// 如果時間到了還沒有入座則自動入座
 			if !player.IsIn {
 				te.PlayerJoin(player.PlayerID)
 			}
 
-			if te.table.State.PlayerStates[playerIdx].IsIn {
+			if player.IsIn {
 				isInCount++
 			}
 
-			if te.table.State.PlayerStates[playerIdx].Bankroll > 0 {
+			if player.Bankroll > 0 {
 				alivePlayers++
 			}
 		}
